@@ -194,7 +194,7 @@ theorem inBox_window : ∀ (voff vcnt off cnt idx : Idx), voff.length = vcnt.len
 
 /-- **view_write_frame** — a write through a view changes nothing outside the window -/
 theorem view_write_frame (v : View) (a a' : NDArray V) (cnt off : Idx) (vals : List V) (hc : cnt ≠ []) (ho : off ≠ [])
-    (hv : v.offset.length = v.count.length)
+    (hv : v.offset.length = v.count.length) (hr : v.count.length = a.shape.length)
     (h : v.write a cnt off vals = .ok a') (idx : Idx) (hout : inBox v.offset v.count idx = false) :
     a'.get idx = a.get idx := by
   have hce : cnt.isEmpty = false := by cases cnt <;> simp_all
@@ -231,7 +231,10 @@ theorem view_write_frame (v : View) (a a' : NDArray V) (cnt off : Idx) (vals : L
     · rw [C01.get_write a a' cnt _ vals hc hbne hbk h idx, hnb]
       simp
     · have hbk' : a.boxOk (addIdx v.offset off) cnt = false := by simpa using hbk
-      rw [C01.write_outside_rejected a cnt _ vals hc hbne hbk'] at h
+      have hbl : (addIdx v.offset off).length = a.shape.length := by
+        have : (addIdx v.offset off).length = min v.offset.length off.length := by simp [addIdx]
+        omega
+      rw [C01.write_outside_rejected a cnt _ vals hc hbne (by omega) hbl hbk'] at h
       cases h
 
 end views
